@@ -214,6 +214,6 @@ impl Truth {
             })
             .collect();
         pads.sort_by_key(|p| (p.column, p.row));
-        EventModel { run: SIM, timestamp: self.timestamp, wires, pads, pad_samples: (DELAY_SIM + PAD_BINS) as u16, chunk_size: 1400, msg_samples: vec![] }
+        EventModel { run: SIM, timestamp: self.timestamp, wires, pads, pad_samples: (DELAY_SIM + PAD_BINS) as u16, chunk_size: 1400, msg_samples: vec![], header_seed: 0 }
     }
 }
